@@ -17,6 +17,12 @@ def ob(n, split, **kw):
     return o
 OBLIGATIONS = [ob(2, 1), ob(3, 1), ob(3, 2),
                ob(3, 1, name='kf_escape_split', expect='kf', kf='C10-1', witness=False), ob(3, 1, name='kf_fold_split', expect='kf', kf='C10-2', witness=False)] + \
-    [ob(4, k, tiers=('thorough',), timeout=3000, mem_gb=30) for k in (1, 2, 3)] + \
-    [ob(3, k, defs=['N=3', 'SPLIT=%d' % k, 'ECHSE_VERIF_STASH=16U', 'EMIT'], name='n3_split%d_emit' % k, tiers=('thorough',), timeout=3000, mem_gb=30) for k in (1, 2)]
-
+    [ob(4, k, timeout=1200, mem_gb=8) for k in (1, 2, 3)] + \
+    [ob(4, 2, defs=['N=4', 'SPLIT=2', 'ECHSE_VERIF_STASH=3U', 'SAFETY_ONLY'], name='overlong_n4_split2_stash3', timeout=1200, mem_gb=8, excludes=[],
+        bounds='4 bytes against a line stash of 3: the over-long-line paths; memory safety and termination only')] + \
+    [ob(5, 2, defs=['N=5', 'SPLIT=2', 'ECHSE_VERIF_STASH=3U', 'SAFETY_ONLY'], name='overlong_n5_split2_stash3', tiers=('thorough',), timeout=3000, mem_gb=16, excludes=[],
+        bounds='5 bytes against a line stash of 3; memory safety and termination only')] + \
+    [ob(5, k, tiers=('thorough',), timeout=3000, mem_gb=16) for k in (1, 2, 3, 4)] + \
+    [ob(6, 3, tiers=('thorough',), timeout=3400, mem_gb=24)] + \
+    [ob(3, k, defs=['N=3', 'SPLIT=%d' % k, 'ECHSE_VERIF_STASH=16U', 'EMIT'], name='n3_split%d_emit' % k, tiers=('thorough',), timeout=3000, mem_gb=30) for k in (1, 2)] + \
+    [ob(4, 2, defs=['N=4', 'SPLIT=2', 'ECHSE_VERIF_STASH=16U', 'EMIT'], name='n4_split2_emit', tiers=('thorough',), timeout=3000, mem_gb=30)]
